@@ -13,6 +13,7 @@ import (
 	"github.com/Oneledger/protocol/data/network_delegation"
 
 	"olverif/internal/drive"
+	"olverif/internal/gen"
 	"olverif/internal/hist"
 	"olverif/internal/mon"
 	"olverif/internal/proto"
@@ -315,6 +316,22 @@ func checkC14(tier string) int {
 		newMon: func(w *world.World) func(run *hist.Runner, blk *hist.Block) []mon.Finding {
 			m := mon.NewC14(w.P.Frankenstein)
 			return wrapStateful(m.OnBlock)
+		},
+		tune: func(cfg *drive.Cfg, i int) {
+			// two candidates stake far less than the minimum: validator records that are never active (whatever is
+			// shared out among "the validators" at a finalisation, the shares add up to the validators' part)
+			w1, _ := world.New(cfg.Params)
+			cfg.ExtraPlan = func(c *gen.Ctx) []hist.TxSpec {
+				var out []hist.TxSpec
+				if c.H == 2 {
+					for _, v := range w1.Vals {
+						if !v.InGenesis {
+							out = append(out, gen.Build(c, "STAKE", gen.StakeMsg(v, "100"), "a candidate stakes far less than the minimum (a validator record that is never active)", &v.Stake, gen.ConsAccount(v)))
+						}
+					}
+				}
+				return out
+			}
 		},
 		gates: map[string]int{"ok:PROPOSAL_CREATE": 6, "ok:PROPOSAL_FUND": 5, "ok:PROPOSAL_VOTE": 4, "ok:PROPOSAL_CANCEL": 1, "ok:PROPOSAL_WITHDRAW_FUNDS": 2},
 	}, tier)
